@@ -62,10 +62,15 @@ def gen_world(rng, max_wrappers=5):
             kinds += ["bauth", "token", "client"]
         if not pw.get("idsetter") and rng.random() < 0.5:
             kinds += ["idsetter"]
+        if rng.random() < 0.5:
+            kinds += ["failing"]
+        if not pw.get("nested") and rng.random() < 0.4:
+            kinds += ["nested"]
         kind = rng.choice(kinds)
         w = {"kind": kind, "impl": pw["impl"], "parent": p,
              "auth": pw["auth"] or kind in ("bauth", "token", "client"),
-             "idsetter": pw.get("idsetter")}
+             "idsetter": pw.get("idsetter"), "failing": bool(pw.get("failing")) or kind == "failing",
+             "nested": int(pw.get("nested") or 0) + (1 if kind == "nested" else 0)}
         if kind == "idsetter":
             # the caller supplies its request ids through an adapter of its own
             w["idsetter"] = {"mode": rng.choice(["always", "default"]), "tag": f"adp{len(wrappers)}"}
@@ -123,6 +128,11 @@ def generate(rng, tier):
                 # the caller re-uses ONE headers dict object for several requests (also across threads)
                 op["hdr_shared"] = rng.randrange(2)
             if rng.random() < 0.2:
+                op["adfail"] = rng.choice(["pre", "post"])       # honoured by 'failing' layers only
+            if world["wrappers"][op["w"]].get("nested") and op["net"].get("fault"):
+                # the transport plan belongs to the op: it would hit the adapter's own nested request first
+                op["net"] = {"lat": op["net"].get("lat", 0), "body": ""}
+            if rng.random() < 0.2:
                 # the thread first derives a fresh connection from the chosen one and sends through that
                 op["derive"] = rng.choice(["plain", "prefix", "mcaller"])
             ops.append(op)
@@ -172,6 +182,13 @@ def build_world(spec):
                 o = ch.HttpConn(parent, adapters=ch.RequestAdapterAddPathPrefix(w["prefix"]))
             elif kind == "idsetter":
                 o = ch.HttpConn(parent, adapters=make_id_setter(w["idsetter"]))
+            elif kind == "failing":
+                o = ch.HttpConn(parent, adapters=hw.make_adapter({"a": "fail"}, hw.make_adapter_classes()))
+            elif kind == "nested":
+                # every request through this layer first issues a request of its own through the base
+                # connection of the same underlying connection (token refresh pattern)
+                classes = hw.make_adapter_classes()
+                o = ch.HttpConn(parent, adapters=classes[0].NestedCaller(objs[w["impl"]]))
             elif kind == "bauth":
                 o = ch.BAuthConn(parent, "user", "pa:ss")
             elif kind == "token":
@@ -329,18 +346,33 @@ def check(spec, ops, tr, outcomes):
     by_impl = {}
     for op in ops:
         seen = op.get("_seen", [])
-        if len(seen) != 1:
-            raise Violation("history", "request-count",
-                            f"op {op['k']} reached the transport {len(seen)} times")
-        fault = op["net"].get("fault")
+        w = spec["wrappers"][op["w"] % len(spec["wrappers"])]
+        adfail = op.get("adfail") if w.get("failing") else None
+        nested = int(w.get("nested") or 0)
+        # adapters run outer layer first: nested requests of layers outside the failing one still go out
+        want = nested + (0 if adfail == "pre" else 1)
         out = outcomes.get(op["k"])
         if out is None:
             raise Violation("history", "no-outcome", f"op {op['k']} has no outcome")
-        if not fault and out[0] == "exc":
+        if adfail == "pre":
+            if out[0] != "exc":
+                raise Violation("history", "adapter-failure-swallowed", f"op {op['k']}")
+            if len(seen) > nested:
+                raise Violation("history", "request-sent-after-adapter-failure", f"op {op['k']}")
+            for rec in seen:
+                by_impl.setdefault(w["impl"], []).append(({"k": f"{op['k']}n", "own_id": None, "w": w["impl"]}, rec))
+            continue
+        if len(seen) != want:
+            raise Violation("history", "request-count",
+                            f"op {op['k']} reached the transport {len(seen)} times (expected {want})")
+        fault = op["net"].get("fault")
+        if not fault and adfail != "post" and out[0] == "exc":
             raise Violation("history", "unexpected-exception",
                             f"fault-free op {op['k']} raised {out[1]}")
-        w = spec["wrappers"][op["w"] % len(spec["wrappers"])]
-        by_impl.setdefault(w["impl"], []).append((op, seen[0]))
+        for rec in seen[:-1]:
+            # requests issued by a nested-caller adapter go through the base connection: plain auto ids
+            by_impl.setdefault(w["impl"], []).append(({"k": f"{op['k']}n", "own_id": None, "w": w["impl"]}, rec))
+        by_impl.setdefault(w["impl"], []).append((op, seen[-1]))
     for impl_idx, lst in sorted(by_impl.items()):
         imp = spec["impls"][impl_idx]
         auto = []
